@@ -57,7 +57,7 @@ def run(spec, out):
     for it in range(spec["n"]):
         case = G.generate(rng, nprng, family=rng.choice(fams), P={"maxlen": spec["maxlen"], "ell_p": 0.2})
         b = rng.choice([None, None, "numpy", "numpy.numpylike", "numpy.einsum"])
-        risk = "multi-bracket-in-flatten" if "multi-bracket-in-flatten" in case.feats else ""
+        risk = G.risk(case)
         for label, short, long in sugar.pairs(case, rng):
             if label == "__transform_error__":
                 out.count("transform_errors")
